@@ -37,6 +37,8 @@ for d in sorted(glob.glob('/verif/seeded/*/')):
                 cl = re.findall(r'^  class=(\S+)', t, re.M)
                 classes = ', '.join(f'`{c}`' for c in cl[:3]) + (' …' if len(cl) > 3 else '')
                 break
+    if m.get('superseded'):
+        caught, classes = 'n/a: ' + m['superseded'], ''
     suite = 'suite passes' if 'tests-pass' in ver else ('suite: see verify.log' if ver != 'not yet verified' else '')
     rows.append(f"| {i} | {m['property']} | {m.get('summary','')[:200]} | {m.get('needs','')[:200]} | {'confirmed' if okv else ver[:80]}; {suite} | {caught} | {classes} |")
 seeded = "\n".join(rows)
